@@ -412,4 +412,289 @@ theorem step_u_single {r' t : List UInt8} {cu : Nat} (h : Spec.hex4 r' = some (c
     rw [if_neg hq]
     rfl
 
+
+theorem twelve_noquote (x0 x1 x2 x3 y0 y1 y2 y3 : UInt8) (t : List UInt8)
+    (h0 : (x0 == 34) = false) (h1 : (x1 == 34) = false) (h2 : (x2 == 34) = false) (h3 : (x3 == 34) = false)
+    (k0 : (y0 == 34) = false) (k1 : (y1 == 34) = false) (k2 : (y2 == 34) = false) (k3 : (y3 == 34) = false) :
+    ∀ j, j < 12 → ((92 :: 117 :: x0 :: x1 :: x2 :: x3 :: 92 :: 117 :: y0 :: y1 :: y2 :: y3 :: t).getD j 0 == 34) = false := by
+  intro j hj
+  have : j = 0 ∨ j = 1 ∨ j = 2 ∨ j = 3 ∨ j = 4 ∨ j = 5 ∨ j = 6 ∨ j = 7 ∨ j = 8 ∨ j = 9 ∨ j = 10 ∨ j = 11 := by omega
+  rcases this with rfl | rfl | rfl | rfl | rfl | rfl | rfl | rfl | rfl | rfl | rfl | rfl
+  · rfl
+  · rfl
+  · exact h0
+  · exact h1
+  · exact h2
+  · exact h3
+  · rfl
+  · rfl
+  · exact k0
+  · exact k1
+  · exact k2
+  · exact k3
+
+/-- what the array holds after a `\\uXXXX` unit -/
+theorem after_u {a : Bytes} {i : Nat} {x0 x1 x2 x3 : UInt8} {t : List UInt8}
+    (hd : a.toList.drop i = 92 :: 117 :: x0 :: x1 :: x2 :: x3 :: t) :
+    a.getD (i + 6) 0 = t.getD 0 0 ∧ a.getD (i + 7) 0 = t.getD 1 0 ∧ hex4 a (i + 8) = H (t.drop 2) := by
+  have hd6 : a.toList.drop (i + 6) = t := drop_add hd 6
+  refine ⟨getD_of_drop hd6 0, getD_of_drop hd6 1, ?_⟩
+  exact hex4_of_drop (drop_add hd6 2)
+
+theorem step_u_pair {r' r3 r4 : List UInt8} {cu lo : Nat} (h : Spec.hex4 r' = some (cu, 92 :: 117 :: r3))
+    (hh : 0xD800 ≤ cu ∧ cu < 0xDC00) (h2 : Spec.hex4 r3 = some (lo, r4)) (hl : 0xDC00 ≤ lo ∧ lo < 0xE000) :
+    Step (92 :: 117 :: r') 12 (Spec.utf8 (0x10000 + (cu - 0xD800) * 1024 + (lo - 0xDC00))) := by
+  obtain ⟨x0, x1, x2, x3, rfl, hH, hle, v0, v1, v2, v3⟩ := H_some h
+  obtain ⟨y0, y1, y2, y3, rfl, hH2, hle2, w0, w1, w2, w3⟩ := H_some h2
+  intro a start lim i f out hd
+  apply go_of_body
+  intro h0
+  obtain ⟨e1, e2⟩ := goBody_u (k := decodeStringGo a start lim f) (out := out) hd h0
+  obtain ⟨g6, g7, g8⟩ := after_u hd
+  have g8' : hex4 a (i + 8) = H (y0 :: y1 :: y2 :: y3 :: r4) := g8
+  have hq : ¬ quoteDist a i < 12 := by
+    apply quoteDist_ge 12 (by decide)
+    intro j hj
+    rw [getD_of_drop hd j]
+    exact twelve_noquote x0 x1 x2 x3 y0 y1 y2 y3 r4 (hexvalid_facts x0 v0).1 (hexvalid_facts x1 v1).1
+      (hexvalid_facts x2 v2).1 (hexvalid_facts x3 v3).1 (hexvalid_facts y0 w0).1 (hexvalid_facts y1 w1).1
+      (hexvalid_facts y2 w2).1 (hexvalid_facts y3 w3).1 j hj
+  rw [e1, uBody_pair (by rw [e2, hH]; exact hh) g6 g7 (by rw [g8', hH2]; exact hle2), if_neg hq, e2, g8']
+  have hc := surrogate_combine (H (x0 :: x1 :: x2 :: x3 :: 92 :: 117 :: y0 :: y1 :: y2 :: y3 :: r4))
+    (H (y0 :: y1 :: y2 :: y3 :: r4)) (by omega) (by omega) (by omega) (by omega)
+  rw [c32of_eq, hH, hH2] at hc
+  have henc := encodeUTF8_spec (c32of (H (x0 :: x1 :: x2 :: x3 :: 92 :: 117 :: y0 :: y1 :: y2 :: y3 :: r4))
+    (H (y0 :: y1 :: y2 :: y3 :: r4))) (by omega) (by omega)
+  rw [henc, hc]
+  rfl
+
+theorem wstep_u_pair {r' r3 r4 : List UInt8} {cu lo : Nat} (h : Spec.hex4 r' = some (cu, 92 :: 117 :: r3))
+    (hh : 0xD800 ≤ cu ∧ cu < 0xDC00) (h2 : Spec.hex4 r3 = some (lo, r4)) : WStep (92 :: 117 :: r') 12 := by
+  obtain ⟨x0, x1, x2, x3, rfl, hH, hle, v0, v1, v2, v3⟩ := H_some h
+  obtain ⟨y0, y1, y2, y3, rfl, hH2, hle2, w0, w1, w2, w3⟩ := H_some h2
+  intro a start lim i f out hd
+  have key := go_of_body (a := a) (start := start) (lim := lim) (i := i) (f := f) (out := out)
+    (R := uBody a (decodeStringGo a start lim f) i out) (fun h0 => (goBody_u hd h0).1)
+  rw [key]
+  by_cases h0 : i - start ≥ lim
+  · left; rw [if_pos h0]
+  · rw [if_neg h0]
+    obtain ⟨e1, e2⟩ := goBody_u (k := decodeStringGo a start lim f) (out := out) hd h0
+    obtain ⟨g6, g7, g8⟩ := after_u hd
+    have g8' : hex4 a (i + 8) = H (y0 :: y1 :: y2 :: y3 :: r4) := g8
+    rw [uBody_pair (by rw [e2, hH]; exact hh) g6 g7 (by rw [g8', hH2]; exact hle2)]
+    by_cases hq : quoteDist a i < 12
+    · left; rw [if_pos hq]
+    · rw [if_neg hq]
+      cases encodeUTF8 (c32of (hex4 a (i + 2)) (hex4 a (i + 8))) with
+      | none => left; rfl
+      | some bs => right; exact ⟨_, rfl⟩
+
+theorem fail_u_pair_badhex {r' r3 : List UInt8} {cu : Nat} (h : Spec.hex4 r' = some (cu, 92 :: 117 :: r3))
+    (hh : 0xD800 ≤ cu ∧ cu < 0xDC00) (h2 : Spec.hex4 r3 = none) : FailNow (92 :: 117 :: r') := by
+  obtain ⟨x0, x1, x2, x3, rfl, hH, hle, v0, v1, v2, v3⟩ := H_some h
+  intro a start lim i f out hd
+  apply go_of_body_none
+  intro h0
+  obtain ⟨e1, e2⟩ := goBody_u (k := decodeStringGo a start lim f) (out := out) hd h0
+  obtain ⟨g6, g7, g8⟩ := after_u hd
+  have g8' : hex4 a (i + 8) = H r3 := g8
+  have := H_none h2
+  rw [e1]
+  exact uBody_pair_fail2 (by rw [e2, hH]; exact hh) (by rw [g8']; omega)
+
+theorem fail_u_pair_nobs {r' t : List UInt8} {cu : Nat} (h : Spec.hex4 r' = some (cu, t))
+    (hh : 0xD800 ≤ cu ∧ cu < 0xDC00) (ht : t.getD 0 0 ≠ 92 ∨ t.getD 1 0 ≠ 117) : FailNow (92 :: 117 :: r') := by
+  obtain ⟨x0, x1, x2, x3, rfl, hH, hle, v0, v1, v2, v3⟩ := H_some h
+  intro a start lim i f out hd
+  apply go_of_body_none
+  intro h0
+  obtain ⟨e1, e2⟩ := goBody_u (k := decodeStringGo a start lim f) (out := out) hd h0
+  obtain ⟨g6, g7, g8⟩ := after_u hd
+  rw [e1]
+  exact uBody_pair_fail1 (by rw [e2, hH]; exact hh) (by rw [g6, g7]; exact ht)
+
+
+/-! ## one step of the specification -/
+
+theorem sb_zero (s acc : List UInt8) (o : Bool) : Spec.stringBody 0 s acc o = .rej := by
+  rw [Spec.stringBody.eq_def]
+
+theorem sb_nil (fuel : Nat) (acc : List UInt8) (o : Bool) : Spec.stringBody fuel [] acc o = .rej := by
+  rw [Spec.stringBody.eq_def]; cases fuel <;> rfl
+
+theorem sb_quote (fuel : Nat) (r acc : List UInt8) (o : Bool) :
+    Spec.stringBody (fuel + 1) (34 :: r) acc o = if o then .out else .acc acc.reverse r := by
+  rw [Spec.stringBody.eq_def]; simp
+
+theorem sb_ctrl (fuel : Nat) (c : UInt8) (r acc : List UInt8) (o : Bool) (h1 : (c == 34) = false) (h : c < 0x20) :
+    Spec.stringBody (fuel + 1) (c :: r) acc o = .rej := by
+  rw [Spec.stringBody.eq_def]; simp [h1, h]
+
+theorem sb_bs_end (fuel : Nat) (acc : List UInt8) (o : Bool) : Spec.stringBody (fuel + 1) [92] acc o = .rej := by
+  rw [Spec.stringBody.eq_def]; simp
+
+theorem escapeSpec_cases : ∀ e : UInt8, (e == 117) = false →
+    (escapeSpec e = 0 ∧ (e == 0x22) = false ∧ (e == 0x5C) = false ∧ (e == 0x2F) = false ∧ (e == 0x62) = false ∧
+      (e == 0x66) = false ∧ (e == 0x6E) = false ∧ (e == 0x72) = false ∧ (e == 0x74) = false) ∨
+    (e = 0x22 ∨ e = 0x5C ∨ e = 0x2F ∨ e = 0x62 ∨ e = 0x66 ∨ e = 0x6E ∨ e = 0x72 ∨ e = 0x74) :=
+  forall_u8 (by decide +kernel)
+
+theorem sb_esc (fuel : Nat) (e : UInt8) (r' acc : List UInt8) (o : Bool) (he : (e == 117) = false) :
+    Spec.stringBody (fuel + 1) (92 :: e :: r') acc o =
+      if escapeSpec e = 0 then .rej else Spec.stringBody fuel r' (escapeSpec e :: acc) o := by
+  rw [Spec.stringBody.eq_def]
+  rcases escapeSpec_cases e he with ⟨h0, h1, h2, h3, h4, h5, h6, h7, h8⟩ | h
+  · simp [h0, h1, h2, h3, h4, h5, h6, h7, h8, he]
+  · rcases h with rfl | rfl | rfl | rfl | rfl | rfl | rfl | rfl <;> simp [escapeSpec]
+
+
+theorem sb_u_none (fuel : Nat) (r' acc : List UInt8) (o : Bool) (h : Spec.hex4 r' = none) :
+    Spec.stringBody (fuel + 1) (92 :: 117 :: r') acc o = .rej := by
+  rw [Spec.stringBody.eq_def]; simp [h]
+
+theorem sb_u_single (fuel : Nat) (r' t acc : List UInt8) (o : Bool) (cu : Nat) (h : Spec.hex4 r' = some (cu, t))
+    (hnh : ¬ (0xD800 ≤ cu ∧ cu < 0xDC00)) (hnl : ¬ (0xDC00 ≤ cu ∧ cu < 0xE000)) :
+    Spec.stringBody (fuel + 1) (92 :: 117 :: r') acc o = Spec.stringBody fuel t ((Spec.utf8 cu).reverse ++ acc) o := by
+  rw [Spec.stringBody.eq_def]; simp [h, hnh, hnl]
+
+theorem sb_u_low (fuel : Nat) (r' t acc : List UInt8) (o : Bool) (cu : Nat) (h : Spec.hex4 r' = some (cu, t))
+    (hl : 0xDC00 ≤ cu ∧ cu < 0xE000) :
+    Spec.stringBody (fuel + 1) (92 :: 117 :: r') acc o = Spec.stringBody fuel t acc true := by
+  have hnh : ¬ (0xD800 ≤ cu ∧ cu < 0xDC00) := by omega
+  rw [Spec.stringBody.eq_def]; simp [h, hnh, hl]
+
+theorem sb_u_pair (fuel : Nat) (r' r3 r4 acc : List UInt8) (o : Bool) (cu lo : Nat)
+    (h : Spec.hex4 r' = some (cu, 92 :: 117 :: r3)) (hh : 0xD800 ≤ cu ∧ cu < 0xDC00)
+    (h2 : Spec.hex4 r3 = some (lo, r4)) (hl : 0xDC00 ≤ lo ∧ lo < 0xE000) :
+    Spec.stringBody (fuel + 1) (92 :: 117 :: r') acc o =
+      Spec.stringBody fuel r4 ((Spec.utf8 (0x10000 + (cu - 0xD800) * 1024 + (lo - 0xDC00))).reverse ++ acc) o := by
+  rw [Spec.stringBody.eq_def]; simp [h, hh, h2, hl]
+
+/-- a high surrogate not followed by a low one: latched, and the text after the first unit is checked -/
+theorem sb_u_latch (fuel : Nat) (r' t acc : List UInt8) (o : Bool) (cu : Nat)
+    (h : Spec.hex4 r' = some (cu, t)) (hh : 0xD800 ≤ cu ∧ cu < 0xDC00)
+    (hno : ∀ r3 lo r4, t = 92 :: 117 :: r3 → Spec.hex4 r3 = some (lo, r4) → ¬ (0xDC00 ≤ lo ∧ lo < 0xE000)) :
+    Spec.stringBody (fuel + 1) (92 :: 117 :: r') acc o = Spec.stringBody fuel t acc true := by
+  rw [Spec.stringBody.eq_def]
+  simp only [h, hh]
+  simp only [show ((92 : UInt8) == 0x22) = false from by decide, show ¬ ((92 : UInt8) < 0x20) from by decide,
+    show ((92 : UInt8) == 0x5C) = true from by decide, show ((117 : UInt8) == 0x22) = false from by decide,
+    show ((117 : UInt8) == 0x5C) = false from by decide, show ((117 : UInt8) == 0x2F) = false from by decide,
+    show ((117 : UInt8) == 0x62) = false from by decide, show ((117 : UInt8) == 0x66) = false from by decide,
+    show ((117 : UInt8) == 0x6E) = false from by decide, show ((117 : UInt8) == 0x72) = false from by decide,
+    show ((117 : UInt8) == 0x74) = false from by decide, show ((117 : UInt8) == 0x75) = true from by decide,
+    if_true, if_false, Bool.false_eq_true, and_self]
+  split
+  · rename_i r3
+    split
+    · rename_i lo r4 h2
+      rw [if_neg (hno r3 lo r4 rfl h2)]
+    · rfl
+  · rfl
+
+
+theorem sb_high (fuel : Nat) (c : UInt8) (r acc : List UInt8) (o : Bool) (hc : ¬ c < 0x80) :
+    Spec.stringBody (fuel + 1) (c :: r) acc o =
+      if Spec.utf8Len (c :: r) = 0 then Spec.stringBody fuel r acc true
+      else Spec.stringBody fuel ((c :: r).drop (Spec.utf8Len (c :: r)))
+        (((c :: r).take (Spec.utf8Len (c :: r))).reverse ++ acc) o := by
+  obtain ⟨_, f1, f2, f3⟩ := high_facts c hc
+  rw [Spec.stringBody.eq_def]
+  simp only [f1, f2, f3, hc, if_false, Bool.false_eq_true, beq_iff_eq]
+
+/-! ## `closeQ` along one unit -/
+
+/-- `t` is `s` without a first unit of `k` bytes, none of them a control character, and `closeQ` sees it so -/
+structure Shift (s t : List UInt8) (k : Nat) : Prop where
+  cq : closeQ s = (closeQ t).map (· + k)
+  dr : t = s.drop k
+  nc : ∀ j, j < k → ¬ s.getD j 0 < 0x20
+
+theorem Shift.plain {c : UInt8} {r : List UInt8} (h1 : (c == 34) = false) (h2 : (c == 92) = false) (h3 : ¬ c < 0x20) :
+    Shift (c :: r) r 1 := by
+  refine ⟨?_, rfl, ?_⟩
+  · rw [closeQ.eq_def]; simp only [h1, h2, Bool.false_eq_true, if_false]
+  · intro j hj
+    have : j = 0 := by omega
+    subst this
+    exact h3
+
+theorem Shift.pair {e : UInt8} {r' : List UInt8} (he : ¬ e < 0x20) : Shift (92 :: e :: r') r' 2 := by
+  refine ⟨?_, rfl, ?_⟩
+  · rw [closeQ]; simp
+  · intro j hj
+    have : j = 0 ∨ j = 1 := by omega
+    rcases this with rfl | rfl
+    · show ¬ (92 : UInt8) < 0x20; decide
+    · exact he
+
+theorem Shift.trans {s t u : List UInt8} {k m : Nat} (h1 : Shift s t k) (h2 : Shift t u m) : Shift s u (k + m) := by
+  refine ⟨?_, ?_, ?_⟩
+  · rw [h1.cq, h2.cq]
+    cases closeQ u with
+    | none => rfl
+    | some d => simp only [Option.map_some]; congr 1; omega
+  · rw [h2.dr, h1.dr, List.drop_drop]
+  · intro j hj
+    by_cases hjk : j < k
+    · exact h1.nc j hjk
+    · have := h2.nc (j - k) (by omega)
+      rw [h1.dr, List.getD_eq_getElem?_getD, List.getElem?_drop, ← List.getD_eq_getElem?_getD] at this
+      rw [show k + (j - k) = j by omega] at this
+      exact this
+
+theorem Shift.getD {s t : List UInt8} {k : Nat} (h : Shift s t k) (j : Nat) : t.getD j 0 = s.getD (k + j) 0 := by
+  rw [h.dr, List.getD_eq_getElem?_getD, List.getElem?_drop, ← List.getD_eq_getElem?_getD]
+
+theorem Shift.six {x0 x1 x2 x3 : UInt8} {t : List UInt8} (v0 : hexValSpec x0 ≠ 0xFFFFFFFF)
+    (v1 : hexValSpec x1 ≠ 0xFFFFFFFF) (v2 : hexValSpec x2 ≠ 0xFFFFFFFF) (v3 : hexValSpec x3 ≠ 0xFFFFFFFF) :
+    Shift (92 :: 117 :: x0 :: x1 :: x2 :: x3 :: t) t 6 := by
+  have p (x : UInt8) (v : hexValSpec x ≠ 0xFFFFFFFF) (r : List UInt8) : Shift (x :: r) r 1 :=
+    Shift.plain (hexvalid_facts x v).1 (hexvalid_facts x v).2.1 (hexvalid_facts x v).2.2
+  exact (((((Shift.pair (by decide)).trans (p x0 v0 _)).trans (p x1 v1 _)).trans (p x2 v2 _)).trans (p x3 v3 _))
+
+theorem Shift.u {r' t : List UInt8} {cu : Nat} (h : Spec.hex4 r' = some (cu, t)) : Shift (92 :: 117 :: r') t 6 := by
+  obtain ⟨x0, x1, x2, x3, rfl, hH, hle, v0, v1, v2, v3⟩ := H_some h
+  exact Shift.six v0 v1 v2 v3
+
+theorem closeQ_lt : ∀ (n : Nat) (s : List UInt8) (d : Nat), s.length ≤ n → closeQ s = some d → d < s.length := by
+  intro n
+  induction n with
+  | zero =>
+    intro s d hs h
+    have : s = [] := List.eq_nil_of_length_eq_zero (by omega)
+    subst this
+    rw [closeQ] at h; exact absurd h (by simp)
+  | succ n ih =>
+    intro s d hs h
+    match s, hs, h with
+    | [], _, h => rw [closeQ] at h; exact absurd h (by simp)
+    | c :: r, hs, h =>
+      rw [closeQ.eq_def] at h
+      simp only at h
+      split at h
+      · simp only [Option.some.injEq] at h; subst h; simp
+      · split at h
+        · match r, hs, h with
+          | [], _, h => exact absurd h (by simp)
+          | e :: r', hs, h =>
+            simp only [List.length_cons] at hs ⊢
+            simp only at h
+            cases hq : closeQ r' with
+            | none => rw [hq] at h; exact absurd h (by simp)
+            | some d' =>
+              rw [hq] at h
+              simp only [Option.map_some, Option.some.injEq] at h
+              have := ih r' d' (by omega) hq
+              omega
+        · simp only [List.length_cons] at hs ⊢
+          cases hq : closeQ r with
+          | none => rw [hq] at h; exact absurd h (by simp)
+          | some d' =>
+            rw [hq] at h
+            simp only [Option.map_some, Option.some.injEq] at h
+            have := ih r d' (by omega) hq
+            omega
+
 end SJ.StrLex
